@@ -270,4 +270,58 @@ theorem assign_merge (f : List Nat) (a b : PF) (lo : Nat) (ha : KeysAsc lo a) (h
     cases lookup b k <;> rfl
 
 
+/-! ### the shuffle oracle is complete -/
+
+
+theorem removeNth_length {α} (l : List α) (c : Nat) (h : c < l.length) : (removeNth l c).length + 1 = l.length := by
+  induction l generalizing c with
+  | nil => simp at h
+  | cons x xs ih =>
+    cases c with
+    | zero => simp [removeNth]
+    | succ c =>
+      simp only [List.length_cons] at h
+      have := ih c (by omega)
+      simp only [removeNth, List.length_cons]; omega
+
+/-- **every shuffle outcome is an oracle**: any rearrangement `l'` of `l` is produced by some oracle prefix, and what is left of the oracle
+    afterwards is arbitrary (`rest`) — so consecutive shuffles are independent and "for every oracle" in the reconstruct theorems
+    (`reconstruct_compatible`, `reconstruct_maximal`, `reconstruct_store`, …) means "for every outcome of every `std::shuffle` call" -/
+theorem permute_surj {α} [Inhabited α] (l' : List α) : ∀ (fuel : Nat) (l : List α) (rest : List Nat), l'.Perm l → l.length ≤ fuel →
+    ∃ o : List Nat, permute fuel (o ++ rest) l = (l', rest) := by
+  induction l' with
+  | nil =>
+    intro fuel l rest hp _
+    have : l = [] := List.Perm.eq_nil (hp.symm)
+    subst this
+    refine ⟨[], ?_⟩
+    cases fuel <;> rfl
+  | cons y ys ih =>
+    intro fuel l rest hp hf
+    have hy : y ∈ l := hp.subset List.mem_cons_self
+    obtain ⟨c, hc, hget⟩ := List.getElem_of_mem hy
+    cases l with
+    | nil => cases hy
+    | cons x xs =>
+      cases fuel with
+      | zero => simp at hf
+      | succ fuel =>
+        have hgd : (x :: xs).getD c default = y := by
+          rw [List.getD_eq_getElem?_getD, List.getElem?_eq_getElem hc, Option.getD_some, hget]
+        have hperm : ys.Perm (removeNth (x :: xs) c) := by
+          have h1 := removeNth_perm (x :: xs) c default hc
+          rw [hgd] at h1
+          exact (hp.trans h1.symm).cons_inv
+        have hlen := removeNth_length (x :: xs) c hc
+        obtain ⟨o', ho'⟩ := ih fuel (removeNth (x :: xs) c) rest hperm (by simp only [List.length_cons] at hf hlen; omega)
+        refine ⟨c :: o', ?_⟩
+        simp only [permute, List.cons_append, List.headD_cons, List.drop_succ_cons, List.drop_zero, Nat.mod_eq_of_lt hc, ho', hgd]
+
+theorem shuffle_surj {α} [Inhabited α] (l l' : List α) (rest : List Nat) (hp : l'.Perm l) :
+    ∃ o : List Nat, shuffle (o ++ rest) l = (l', rest) :=
+  permute_surj l' l.length l rest hp (Nat.le_refl _)
+
+example : ∃ o : List Nat, shuffle (o ++ [7, 7]) [10, 20, 30] = ([30, 10, 20], [7, 7]) := shuffle_surj _ _ _ (by decide)
+
+
 end AITB.Trie
